@@ -122,6 +122,28 @@ theorem cast_sDecY (s : Nat) : ((sDecY s : Nat) : Fp) = decY s := by
 theorem sDecX_lt (s : Nat) : sDecX s < P := Bridge.fabs_lt _
 theorem sDecY_lt (s : Nat) : sDecY s < P := Bridge.fmul_lt _ _
 
+/-- the radicand `v u2²` (`u1 = 1 − s²`, `u2 = 1 + s²`, `v = −d u1² − u2²`) whose inverse square root DECODE takes -/
+noncomputable def radicand (s : Fp) : Fp := decV s * (1 + s ^ 2) ^ 2
+
+theorem wasSquare_iff (s : Nat) :
+    (sqrtRatioM1 1 (sDecW s)).1 = true ↔ (radicand (s : Fp) ≠ 0 ∧ IsSquare (radicand (s : Fp))) := by
+  rw [Bridge.sqrtRatioM1_ok_iff, cast_sDecW, Nat.cast_one, one_div, isSquare_inv]
+  constructor
+  · rintro (h | h)
+    · exact absurd h one_ne_zero
+    · exact h
+  · exact Or.inr
+
+/-- the value DECODE returns when it accepts -/
+theorem decode_eq_some {b : List UInt8} {p : Pt} (h : Ristretto.decode b = some p) :
+    p = ⟨sDecX (leToNat b), sDecY (leToNat b)⟩ := by
+  rw [decode_unfold] at h
+  split at h
+  · cases h
+  split at h
+  · cases h
+  · exact (Option.some.inj h).symm
+
 /-! ## ENCODE -/
 
 /-- the field element `s` computed by `Spec.Ristretto.encodeExt` before `feToBytes` -/
